@@ -1,4 +1,5 @@
 import MjProof.Model.Kinematics
+import MjProof.Lemmas.DofChain
 import MjProof.Lemmas.Spatial
 import MjProof.Props.C24
 import Mathlib.Analysis.SpecialFunctions.Trigonometric.Deriv
@@ -18,6 +19,12 @@ checks/c07.py):
     `xaxis` / `xanchor` that `mj_kinematics` stores;
   * `differentiate_integrate_*` — `mj_differentiatePos` inverts `mj_integratePos` (slide / hinge exactly; ball / free
     `_partial` under the no-wrap conditions of `C24.subQuat_quatIntegrate`).
+  * `mergeChain_sorted`, `mergeChain_mem`, `mergeChain_skipcommon_mem`, `bodyChain_mem` — the sparse dof chains of
+    `mj_mergeChain` / `mj_bodyChain` (`MjProof/Model/DofChain.lean`, tied to the C functions by exact integer
+    correspondence) are strictly increasing and contain exactly the dofs that move either body, resp. with
+    `flg_skipcommon` exactly the dofs that move one body and not the other; `common_dof_column_difference` — on a dof
+    shared by both bodies the two point-Jacobian columns of `mj_jacSparse` differ by `ω × (pos2 − pos1)`, i.e. dropping the
+    shared dofs from a sparse row is lossless exactly when the two points coincide (contacts) or the dof is translational;
 Not proved here (decided by the oracle of checks/c07.py on the real engine): the whole-tree chain rule (every
 Jacobian entry point = derivative along `mj_integratePos`), `cvel = J qvel`, `mj_jacDot`.
 -/
@@ -528,5 +535,83 @@ example : normSq4 quatOne = 1 ∧ minval ≤ Real.sqrt (normSq3 ((1 : ℝ), (0 :
     have hm : minval < 1/4 := by unfold minval; norm_num
     rw [abs_of_pos (by nlinarith)]
     nlinarith
+
+/-! ### sparse dof chains (`mj_mergeChain`, `mj_bodyChain`) and what `flg_skipcommon` drops -/
+section Chains
+open MjProof.DofChain
+
+/-- the merged chain is strictly increasing (the invariant `mj_jacSparse` / `mju_combineSparse` rely on) -/
+theorem mergeChain_sorted (par : Nat → Nat) (hp : ParWF par) (skip : Bool) (s1 s2 : Nat) :
+    (mergeChain par skip s1 s2).Pairwise (· < ·) := by
+  unfold mergeChain
+  rw [List.pairwise_reverse]
+  exact mergeDesc_sorted hp skip _ s1 s2
+
+/-- without `flg_skipcommon`, dof `k` is in the merged chain iff it moves the first or the second body -/
+theorem mergeChain_mem (par : Nat → Nat) (hp : ParWF par) (k s1 s2 : Nat) :
+    k ∈ mergeChain par false s1 s2 ↔ (Anc par k s1 ∨ Anc par k s2) := by
+  unfold mergeChain
+  rw [List.mem_reverse]
+  exact mergeDesc_mem hp k _ s1 s2 (Nat.lt_succ_self _)
+
+/-- with `flg_skipcommon`, dof `k` is in the merged chain iff it moves exactly one of the two bodies: every dof shared by
+both chains is left out of the sparse row -/
+theorem mergeChain_skipcommon_mem (par : Nat → Nat) (hp : ParWF par) (k s1 s2 : Nat) :
+    k ∈ mergeChain par true s1 s2 ↔ ((Anc par k s1 ∧ ¬ Anc par k s2) ∨ (¬ Anc par k s1 ∧ Anc par k s2)) := by
+  unfold mergeChain
+  rw [List.mem_reverse]
+  exact mergeDesc_skip_mem hp k _ s1 s2 (Nat.lt_succ_self _)
+
+/-- the (general-case) body chain holds exactly the dofs that move the body -/
+theorem bodyChain_mem (par : Nat → Nat) (hp : ParWF par) (k s : Nat) : k ∈ bodyChain par s ↔ Anc par k s := by
+  unfold bodyChain
+  rw [mergeChain_mem par hp]
+  constructor
+  · rintro (h | h)
+    · exact h
+    · exact absurd h Anc.not_zero
+  · exact Or.inl
+
+/-- translational Jacobian column of `mj_jac` / `mj_jacSparse` for a dof with spatial axis `(w, v)` (`cdof`) at a point
+with offset `point - subtree_com[root]`: `v + w × offset`, with the generated `mju_cross` (the engine calls the textually
+identical `mji_cross`) -/
+noncomputable def jacColumn (w v com point : V3 ℝ) : V3 ℝ :=
+  let off := Kinematics.sub3 point com
+  Kinematics.add3 v (mju_cross w.1 w.2.1 w.2.2 off.1 off.2.1 off.2.2)
+
+/-- for a dof that moves both bodies (same `cdof`, same tree root) the columns of the two points differ by
+`w × (pos2 - pos1)`: this is exactly what a sparse row built with `flg_skipcommon` loses on every shared dof -/
+theorem common_dof_column_difference (w v com p1 p2 : V3 ℝ) :
+    Kinematics.sub3 (jacColumn w v com p2) (jacColumn w v com p1) = cross3 w (Kinematics.sub3 p2 p1) := by
+  obtain ⟨w0, w1, w2⟩ := w; obtain ⟨v0, v1, v2⟩ := v; obtain ⟨c0, c1, c2⟩ := com
+  obtain ⟨a0, a1, a2⟩ := p1; obtain ⟨b0, b1, b2⟩ := p2
+  simp only [jacColumn, cross3, Kinematics.sub3, Kinematics.add3, mju_cross, Prod.mk.injEq]
+  refine ⟨?_, ?_, ?_⟩ <;> ring
+
+/-- hence dropping the shared dofs is lossless when the two points coincide (the contact case) -/
+theorem common_dof_column_cancels (w v com p : V3 ℝ) :
+    Kinematics.sub3 (jacColumn w v com p) (jacColumn w v com p) = (0, 0, 0) := by
+  rw [common_dof_column_difference]
+  obtain ⟨w0, w1, w2⟩ := w; obtain ⟨a0, a1, a2⟩ := p
+  simp [cross3, Kinematics.sub3]
+
+/-- ... and is lossy otherwise: a hinge about `z` shared by both bodies, anchors one unit apart along `x` -/
+example : Kinematics.sub3 (jacColumn (0, 0, 1) (0, 0, 0) (0, 0, 0) (1, 0, 0)) (jacColumn (0, 0, 1) (0, 0, 0) (0, 0, 0) (0, 0, 0))
+    ≠ ((0 : ℝ), (0 : ℝ), (0 : ℝ)) := by
+  rw [common_dof_column_difference]
+  simp [cross3, Kinematics.sub3]
+
+/-- `ParWF` is satisfiable: a chain of three dofs `0 ← 1 ← 2` plus a separate root dof `3` -/
+example : ParWF (parOf #[-1, 0, 1, -1]) := by
+  refine ⟨by simp [parOf], ?_⟩
+  intro s hs
+  match s, hs with
+  | 1, _ => decide
+  | 2, _ => decide
+  | 3, _ => decide
+  | 4, _ => decide
+  | (n + 5), _ => simp [parOf]
+
+end Chains
 
 end MjProof.C07
